@@ -21,7 +21,7 @@ class C09(Check):
     assumptions = ["Calibrator, RoundRobinScheduler, RLScheduler, agents: real code; RL thread under the baton scheduler",
                    "RL oracle deliberately does not say which pending action is dropped at a session end (that is C10's business): the positions "
                    "used must be a subsequence of the agent's policy values, each used at most once, in order"]
-    quick = {"runs": 900, "wall": 150, "item_timeout": 200}
+    quick = {"runs": 900, "wall": 300, "item_timeout": 200}
     thorough = {"runs": 30000, "wall": 900, "item_timeout": 120}
 
     def gen(self, rng, tier, i):
